@@ -427,7 +427,7 @@ func (c *CEnv) index(b, i *CVal, e *Expr) *CVal {
 		case *types.Slice:
 			comp, s := V.elemComp(t.Elem())
 			h := ex.heapGet(c.st, comp, s)
-			return &CVal{T: Select(Select(h, Acc("sbase", b.T)), Add(Acc("soff", b.T), i.T)), Typ: t.Elem()}
+			return &CVal{T: Select(Select(h, Acc("sbase", b.T)), At(Acc("soff", b.T), i.T)), Typ: t.Elem()}
 		case *types.Map:
 			_, _, vc, vs := V.mapComps(t)
 			return &CVal{T: Select(Select(ex.heapGet(c.st, vc, vs), b.T), i.T), Typ: t.Elem()}
